@@ -135,11 +135,18 @@ def _after_import(lines, k, ln, col) -> bool:
     return re.search(r'\bimport\b', text) is not None
 
 
+_DB_CACHE = {}
+
+
 def load_db(section='functions'):
-    if not os.path.exists(DB):
-        return {}
-    with open(DB) as f:
-        return json.load(f).get(section, {})
+    """One section of anchors.json (read once per process; an unreadable file means no recovery, never a wrong one)."""
+    if 'db' not in _DB_CACHE:
+        try:
+            with open(DB) as f:
+                _DB_CACHE['db'] = json.load(f)
+        except (OSError, ValueError):
+            _DB_CACHE['db'] = {}
+    return _DB_CACHE['db'].get(section, {})
 
 
 def canonicalise(sources: dict) -> tuple[dict, dict]:
